@@ -495,7 +495,7 @@ func sessionStartsAtZero(lines []string) bool {
 }
 
 func init() {
-	register(&Component{Name: "client", Gen: clientGen, Run: clientRun, Monitor: clientMonitor,
+	register(&Component{Name: "client", Gen: clientGen, Run: clientRun, Monitor: clientMonitor, Timing: true,
 		Compare: clientCompare, Stats: clientStats, Quick: 2000, Thorough: 50000,
 		Nontrivial: func(lines, outs []string) bool {
 			f, s := false, false
